@@ -9,7 +9,7 @@
    every run. *)
 From Coq Require Import QArith.
 From GJ Require Import Base Kernel KernelSpec KernelProofs IntersectsProofs IntersectsQ Series SeriesSpec
-  Ring RingSpec PipProofs PairProofs Jordan JordanQ JordanRing JordanRect Convex Holes.
+  Ring RingSpec PipProofs PairProofs Jordan JordanQ JordanRing JordanRect Convex Holes HoleBox.
 Open Scope Z_scope.
 
 (* segments: true exactly when the closed segments share a point; symmetric *)
@@ -165,6 +165,32 @@ Theorem C02_polygon_with_holes_line_pointset : forall e hs qs,
    (3 <= length e)%nat /\ (2 <= length qs)%nat /\
    exists sg, In sg (path_segs qs) /\ poly_shares_point e hs (fst sg) (snd sg)).
 Proof. exact poly_intersects_line_pointset. Qed.
+(* ... for line strings of ANY length: the bounding-box shortcut of ringContainsRing (arguments of 16
+   points and more) is sound in strict mode - if the four sides of the box of the line lie strictly
+   inside the hole, so does every rational point of the box (no edge of the hole can enter the box: its
+   ends would be strictly inside the box, then every vertex of the hole would be, and a corner of the
+   box could not lie inside the hole's own bounding box) *)
+Theorem C02_box_shortcut_strict : forall h qs, hole_ok h -> (2 <= length qs)%nat ->
+  rcr_core (Rg h) (RR (ring_rect (Lr qs))) false = true -> rcr_core (Rg h) (Lr qs) false = true.
+Proof. exact shortcut_strict. Qed.
+Theorem C02_polygon_with_holes_line_any_length : forall e hs qs,
+  Forall hole_ok hs ->
+  (poly_intersects_line (Pg e hs) (Lr qs) = true <->
+   ((3 <= length e)%nat /\ (2 <= length qs)%nat /\
+    exists sg, In sg (path_segs qs) /\ shares_point e (fst sg) (snd sg)) /\
+   forall h, In h hs -> ~ line_strictly_inside h qs).
+Proof. exact poly_intersects_line_holes_all. Qed.
+Theorem C02_polygon_with_holes_line_pointset_any_length : forall e hs qs,
+  Forall hole_ok hs -> holes_valid e hs ->
+  (poly_intersects_line (Pg e hs) (Lr qs) = true <->
+   (3 <= length e)%nat /\ (2 <= length qs)%nat /\
+   exists sg, In sg (path_segs qs) /\ poly_shares_point e hs (fst sg) (snd sg)).
+Proof. exact poly_intersects_line_pointset_all. Qed.
+(* a line string of 17 points inside the hole of a square: the shortcut is taken, the answer is "no" *)
+Example C02_long_line_in_hole :
+  poly_intersects_line (Pg (rect_points ((0,0),(40,40))) [rect_points ((2,2),(30,30))])
+    (Lr [(3,3);(4,5);(5,3);(6,5);(7,3);(8,5);(9,3);(10,5);(11,3);(12,5);(13,3);(14,5);(15,3);(16,5);(17,3);(18,5);(19,3)]) = false.
+Proof. vm_compute. reflexivity. Qed.
 (* non-vacuity: a square with a square hole *)
 Example C02_holes_hypotheses_hold_somewhere :
   let e := rect_points ((0,0),(8,8)) in let h := rect_points ((2,2),(4,4)) in
@@ -244,3 +270,4 @@ Print Assumptions C02_line_line.
 Print Assumptions C02_line_line_symmetric.
 Print Assumptions C02_seg_meet_is_common_point.
 Print Assumptions C02_point_poly.
+Print Assumptions C02_polygon_with_holes_line_pointset_any_length.
